@@ -104,6 +104,14 @@ class Iface:
                 else:
                     out.extend(self.X.raise_(s, "AttributeError", "quantity"))
             return out
+        if name == "transform":
+            out = []
+            for s, isc in self.X.branch(st, core.cname(core.SH(v)) == core.strlit("Count")):
+                if isc:
+                    out.append(Res(s, VBuiltin("child.transform", ch)))
+                else:
+                    out.extend(self.X.raise_(s, "AttributeError", "transform"))
+            return out
         if name == "quantityName":
             # no primitive of this code base defines quantityName
             return self.X.raise_(st, "AttributeError", "quantityName")
